@@ -37,7 +37,7 @@ def nontrivial(case, tr):
 replay = SC.replay_with(judge)
 
 
-POOL_RUNS = {'quick': 25, 'thorough': 250}
+POOL_RUNS = {'quick': 10, 'thorough': 250}
 
 
 def run_shard(tier, idx, nshards, rec, known):
